@@ -253,5 +253,39 @@ LocateOK  == LET r == Locate(S, b, p)
              /\ ~r.oob
              /\ r.id = (IF idx = {} THEN 0 ELSE Min(idx))
 ExtractOK == \A i \in 1..Len(S) : LET e == Extract(S, b, i) IN ~e.oob /\ e.s = S[i]
-Inv2 == Inv /\ LocateOK /\ ExtractOK
+
+-----------------------------------------------------------------------------
+(* The string iterator (IteratorDictStringPFC) as extractPrefix / extractTable start it: at bucket    *)
+(* `leftbucket`, discarding `offset` strings, with the re-synchronisation `pos % bucketsize == 0`      *)
+(* at every bucket end.  The stream of `count` strings from ID `first` must be S[first..first+count-1] *)
+(* (C13: scans starting at any in-bucket offset) without reading outside the text.                     *)
+RECURSIVE ItNext(_, _, _, _, _, _, _, _)
+\* returns [out, oob]; ptr 0-based, pos = position inside the bucket, dec = current string
+ItNext(text, bsz, ptr, pos, dec, remaining, out, oob) ==
+  IF remaining = 0 THEN [out |-> out, oob |-> oob]
+  ELSE IF pos % bsz = 0
+       THEN LET hd == CStr(text, ptr, <<>>) IN
+            ItNext(text, bsz, ptr + Len(hd.s) + 1, 1, hd.s, remaining - 1, Append(out, hd.s), oob \/ hd.oob)
+       ELSE LET vb == VB(text, ptr)
+                d == DecodeNext(text, ptr + vb.used, vb.v, dec) IN
+            ItNext(text, bsz, d.ptr, pos + 1, d.dec, remaining - 1, Append(out, d.dec), oob \/ vb.oob \/ d.oob)
+IterStrings(SS, bsz, first, count) ==
+  LET L == Layout(SS, bsz)
+      lb == 1 + ((first - 1) \div bsz)
+      off == (first - 1) % bsz IN
+  IF off = 0 THEN ItNext(L.text, bsz, L.bl[lb], 0, <<>>, count, <<>>, FALSE)
+  ELSE LET h == Header(L, lb)
+           w == IF off > 1 THEN LET RECURSIVE Skip(_, _, _, _)
+                                    Skip(ptr, dec, k, oob) == IF k = 0 THEN [ptr |-> ptr, dec |-> dec, oob |-> oob]
+                                                              ELSE LET vb == VB(L.text, ptr)
+                                                                       d == DecodeNext(L.text, ptr + vb.used, vb.v, dec)
+                                                                   IN  Skip(d.ptr, d.dec, k - 1, oob \/ vb.oob \/ d.oob)
+                                IN  Skip(h.ptr, h.dec, off - 1, h.oob)
+                ELSE [ptr |-> h.ptr, dec |-> h.dec, oob |-> h.oob] IN
+       ItNext(L.text, bsz, w.ptr, off, w.dec, count, <<>>, w.oob)
+IterOK == /\ LET t == IterStrings(S, b, 1, Len(S)) IN ~t.oob /\ t.out = S                                   \* extractTable
+          /\ \A f \in 1..Len(S) : LET t == IterStrings(S, b, f, Len(S) - f + 1) IN ~t.oob /\ t.out = SubSeq(S, f, Len(S))
+          /\ LET r == R IN (r.left > 0 /\ r.left <= r.right /\ r.right <= Len(S)) =>
+                LET t == IterStrings(S, b, r.left, r.right - r.left + 1) IN ~t.oob /\ t.out = SubSeq(S, r.left, r.right)
+Inv2 == Inv /\ LocateOK /\ ExtractOK /\ IterOK
 =============================================================================
